@@ -303,6 +303,32 @@ def run_faults(b: Batch, state, recursive, errnos, ctx):
                     b.violation("fault-snapshot", f"snapshot {sorted(s.paths)!r} != tree minus failed entry", witness=wit, replay_spec=rs)
 
 
+def run_deep(b: Batch, depth):
+    """A tree nested deeper than the interpreter's recursion limit (one-character names: such a path fits PATH_MAX)."""
+    from watchdog.utils.dirsnapshot import DirectorySnapshot
+
+    st = {}
+    p = ""
+    for i in range(depth):
+        p = "a" if not p else p + "/a"
+        st[p] = Ent(10 + i, 0, True, 0, 0)
+    st[p + "/f"] = Ent(5, 0, False, 0, 0)
+    v = VFS()
+    v.set_state(st)
+    b.case()
+    b.count("deep_trees_judged")
+    b.nontrivial(["deep", depth])
+    rs = {"kind": "deep1", "depth": depth}
+    try:
+        s = DirectorySnapshot(v.root, recursive=True, stat=v.stat, listdir=v.listdir)
+    except RecursionError:
+        b.violation("snapshot-walk-recursion-limit-on-deep-tree", f"DirectorySnapshot of a tree {depth} levels deep raised RecursionError (walk() recurses once per level through nested generators); "
+                    "a polling watch on such a tree cannot start, or its emitter thread dies when the tree grows that deep", witness={"depth": depth}, replay_spec=rs)
+        return
+    if len(s.paths) != depth + 2:
+        b.violation("snapshot-content", f"deep tree: {len(s.paths)} paths for {depth + 2} entries", witness={"depth": depth}, replay_spec=rs)
+
+
 def run_stop_during_walk(b: Batch, s0, s1, recursive, k, ctx):
     """stop() of the emitter lands while a poll is inside its walk (at call k; the tree may also change there): whatever
     that poll still queues must be the true difference between the previous snapshot and the tree - or nothing - never a
@@ -600,7 +626,7 @@ def _sane(s0, s1):
 
 
 def plan(tier, seed, jobs):
-    specs = []
+    specs = [{"kind": "deep", "j": 0}]
     nref = len(c09.canonical_refs())
     if tier == "quick":
         for i in range(0, nref, 2):
@@ -736,6 +762,11 @@ def run_batch(spec):
         run_faults(b, {k: Ent(*v) for k, v in spec["state"]}, spec["recursive"], [spec["errno"]], {"mode": "replay"})
     elif kind == "race1":
         run_race(b, {k: Ent(*v) for k, v in spec["s0"]}, {k: Ent(*v) for k, v in spec["s1"]}, spec["recursive"], spec["k"], {"mode": "replay"})
+    elif kind == "deep":
+        for depth in (300, 1100):
+            run_deep(b, depth)
+    elif kind == "deep1":
+        run_deep(b, spec["depth"])
     elif kind == "stopwalk1":
         run_stop_during_walk(b, {k: Ent(*v) for k, v in spec["s0"]}, {k: Ent(*v) for k, v in spec["s1"]}, spec["recursive"], spec["k"], {"mode": "replay"})
     elif kind == "rootgone1":
